@@ -153,3 +153,76 @@ def crc32c(data):
 
 assert crc16_x25(b'123456789') == 0x906E
 assert crc32c(b'123456789') == 0xE3069283
+
+
+def crc_value(data, crc_type):
+    ''' CRC of an encoded block (with zeroed CRC field): independent table-driven code for concrete octets;
+    for symbolic octets the shared uninterpreted/bit-vector CRC of vf.symcrc (functional consistency). '''
+    from .. import symcrc
+    if not isinstance(data, SBuf):
+        return crc16_x25(data) if crc_type == 1 else crc32c(data)
+    if crc_type == 1:
+        return symcrc.crc(data, 'x-25', 16, 0x8408, 0xFFFF, 0xFFFF)
+    return symcrc.crc(data, 'crc-32c', 32, 0x82F63B78, 0xFFFFFFFF, 0xFFFFFFFF)
+
+
+def crc_field(value, crc_type):
+    from ..symstruct import pack_uint
+    return pack_uint(value, 2 if crc_type == 1 else 4)
+
+
+def seal_primary(p):
+    ''' Primary block array with a valid CRC field (crc_type is concrete). '''
+    ct = int(p['crc_type'])
+    if ct == 0:
+        return encode_primary(p)
+    zero = encode_primary(p, crc=bytes(2 if ct == 1 else 4))
+    return encode_primary(p, crc=crc_field(crc_value(enc(zero), ct), ct))
+
+
+def seal_canonical(b):
+    ct = int(b['crc_type'])
+    if ct == 0:
+        return encode_canonical(b)
+    zero = encode_canonical(b, crc=bytes(2 if ct == 1 else 4))
+    return encode_canonical(b, crc=crc_field(crc_value(enc(zero), ct), ct))
+
+
+def sealed_bundle(primary, blocks):
+    ''' Encoded bundle whose CRC fields are correct. '''
+    out = b'\x9f' + enc(seal_primary(primary))
+    for b in blocks:
+        out = out + enc(seal_canonical(b))
+    return out + b'\xff'
+
+
+def check_crcs(c, bundle, prove, tag=''):
+    ''' Obligations: every block of a decoded bundle carries the CRC of itself with the field zeroed,
+    of the width its type demands; type 0 carries none. '''
+    p = bundle['primary']
+    blocks = [('primary', p, lambda crc: encode_primary_raw(p, crc))]
+    for i, b in enumerate(bundle['blocks']):
+        blocks.append(('block%d' % i, b, (lambda bb: (lambda crc: encode_canonical(dict(bb), crc=crc)))(b)))
+    for (name, blk, mk) in blocks:
+        ct = blk['crc_type']
+        if is_sym(ct):
+            from ..engine import cur
+            ct = cur().concretize(ct.e, why='crc type')
+        if ct == 0:
+            prove('crc' not in blk, 'crc:absent-for-type-0%s' % tag, detail=name)
+            continue
+        width = 2 if ct == 1 else 4
+        prove(blen(blk['crc']) == width, 'crc:field-width%s' % tag, detail=dict(block=name, got=blen(blk['crc'])))
+        zero = mk(bytes(width))
+        want = crc_field(crc_value(enc(zero), ct), ct)
+        prove(same_bytes(blk['crc'], want), 'crc:value-correct%s' % tag, detail=dict(block=name, got=blk['crc'], want=want))
+
+
+def encode_primary_raw(p, crc):
+    ''' Re-encode a *decoded* primary block (EIDs already in CBOR form). '''
+    a = [p['version'], p['flags'], p['crc_type'], p['destination'], p['source'], p['report_to'], list(p['create_ts']),
+         p['lifetime']]
+    if 'fragment_offset' in p:
+        a += [p['fragment_offset'], p['total_adu_length']]
+    a.append(crc)
+    return a
